@@ -31,8 +31,8 @@ class C07(BaseCheck):
                  'max_queue_len, and required whenever live waiters alone >= max_queue_len')
   QUICK_CASES = 1600
   THOROUGH_CASES = 150000
-  QUICK_WALL = 45
-  THOROUGH_WALL = 420
+  QUICK_WALL = 180
+  THOROUGH_WALL = 1800
   MIN_DISTINCT = 10
 
   def run_case(self, env, rng, idx, tier):
